@@ -1,3 +1,20 @@
-From FS Require Import Corr.C19.
-Theorem C19_placeholder : True. Proof. exact I. Qed.
-Print Assumptions C19_placeholder.
+(* Properties/C19.v — Finished executions leave no goroutines or connections behind (partial: see MANIFEST). *)
+From FS Require Import Model.Ledger Proofs.LedgerProofs Corr.C19.
+
+(* hedge attempts: with the result channel's buffer of one, in EVERY interleaving of any number of finishing attempts
+   with the main loop's receives - including a main loop that has already returned and never receives - no attempt
+   goroutine blocks on its send, so each one ends when its inner call returns *)
+Theorem C19_hedge_send_never_blocks : forall cap tr, 1 <= cap -> hs_blocked (h_run cap tr) = 0.
+Proof. exact hedge_send_never_blocks. Qed.
+Print Assumptions C19_hedge_send_never_blocks.
+
+(* the buffer is necessary *)
+Theorem C19_unbuffered_channel_leaks : hs_blocked (h_run 0 [HFinish true]) = 1.
+Proof. exact unbuffered_channel_leaks. Qed.
+Print Assumptions C19_unbuffered_channel_leaks.
+
+(* obligation discharged on every run: every go statement, timer, AfterFunc and derived context found in the
+   library's sources of this run is one of the sites listed in Model/Ledger.v (each with its exit argument);
+   evaluated by the kernel on the regenerated list (Corr/C18.v, CaseSites).  Non-vacuity: *)
+Example C19_new_site_is_rejected : sites_known [("retrypolicy/retryexecutor.go", "Apply", "go")]%string = false.
+Proof. reflexivity. Qed.
